@@ -1,9 +1,81 @@
-(* C11 -- work in progress: the defects D9 / D10 in the model of the unrepaired code *)
-From Coq Require Import ZArith List Bool.
+(* C11 -- No server behaviour can crash, wedge or mislead the client.
+   Only statements, each closed by [exact]; proofs live in ClientSync_lemmas.v.
+   v_fixed is the repaired client (commits "fix: threadedSyncWithServer releases the client
+   mutex ..." and "fix: staticServerSync refuses sync responses shorter than ..."), v_prefix
+   the code before them; the two *_prefix_* theorems are the defects D9 / D10 in the model. *)
+From Coq Require Import ZArith List Bool String.
 From GCA Require Import Wrap Bytes CodecSync ClientSync ClientSync_lemmas.
 Import ListNotations.
 Open Scope Z_scope.
 
-Theorem c11_prefix_parse_panics verify mykey skey gkey now :
+(* --- no reply makes the parser panic: ALL byte strings, ALL length prefixes, any verify ---- *)
+Theorem c11_parse_total (verify : bytes -> bytes -> bytes -> bool) mykey skey gkey now stream :
+  client_recv verify 712 mykey skey gkey now stream <> PPanic /\
+  client_recv verify 712 mykey skey gkey now stream <> PFuel.
+Proof. exact (client_recv_total verify mykey skey gkey now stream). Qed.
+
+(* D10, before the repair: length prefix 3 followed by three bytes -> slice bounds out of range *)
+Theorem c11_prefix_parse_panics (verify : bytes -> bytes -> bytes -> bool) mykey skey gkey now :
   client_recv verify (v_minlen v_prefix) mykey skey gkey now d10_stream = PPanic.
 Proof. exact (d10_prefix_panics verify mykey skey gkey now). Qed.
+
+(* --- one sync round: every outcome vector, every shuffle, every server map ------------------ *)
+(* the mutex is free whenever the round returns (and the round is never blocked by itself) *)
+Theorem c11_lock_released (verify : bytes -> bytes -> bytes -> bool) mykey st att st' r tr :
+  c_locked st = false -> sync_round verify v_fixed mykey st att = (st', r, tr) ->
+  r <> RBlocked /\ (r = RTrue \/ r = RFalse -> c_locked st' = false).
+Proof. exact (round_lock_released verify mykey st att st' r tr). Qed.
+
+(* D9, before the repair: the only server refuses the connection -> false with the mutex held *)
+Theorem c11_prefix_lock_held (verify : bytes -> bytes -> bytes -> bool) mykey :
+  let '(st', r, _) := sync_round verify v_prefix mykey d9_state d9_att in
+  r = RFalse /\ c_locked st' = true.
+Proof. exact (d9_prefix_lock_held verify mykey). Qed.
+
+(* the round never panics (parser, file serialisation) and the model never runs out of fuel *)
+Theorem c11_round_never_panics (verify : bytes -> bytes -> bytes -> bool) mykey st att st' r tr :
+  c_locked st = false -> smap_wf (c_servers st) ->
+  sync_round verify v_fixed mykey st att = (st', r, tr) -> r <> RPanic /\ r <> RFuel.
+Proof. exact (round_never_panics verify mykey st att st' r tr). Qed.
+
+(* every server contacted during the round is in the list and not banned *)
+Theorem c11_never_selects_banned (verify : bytes -> bytes -> bytes -> bool) ver mykey st att st' r tr :
+  c_locked st = false -> sync_round verify ver mykey st att = (st', r, tr) ->
+  Forall (usable (c_servers st)) tr.
+Proof. exact (round_never_selects_banned verify ver mykey st att st' r tr). Qed.
+
+(* --- histories: sync rounds with arbitrary outcomes and restarts in any order --------------- *)
+(* as long as the GCA is the same, a known ban stays known (restarts included), for every
+   history from every state satisfying the invariant (any freshly loaded client does) *)
+Theorem c11_ban_monotone (verify : bytes -> bytes -> bytes -> bool) mykey st ops st' :
+  Inv st -> same_gca_run verify mykey st ops st' -> ban_le (c_servers st) (c_servers st').
+Proof. exact (fun I R => proj1 (same_gca_monotone verify mykey st ops st' I R)). Qed.
+
+Theorem c11_loaded_client_satisfies_invariant fs ord st : client_load fs ord = LdOk st -> Inv st.
+Proof. exact (fun H => proj1 (client_load_spec fs ord st H)). Qed.
+
+(* restart: same GCA, id and list (bans included); the primary chosen at start-up is not banned *)
+Theorem c11_ban_survives_restart st ord st' : Inv st -> client_load (c_files st) ord = LdOk st' ->
+  identity st' = identity st /\ (c_primary st' = blank_key \/ usable (c_servers st') (c_primary st')).
+Proof. exact (restart_keeps_identity st ord st'). Qed.
+
+(* what the round writes to gcaServers.dat decodes to the list it holds (no hypothesis) *)
+Theorem c11_server_map_roundtrip m : smap_wf m ->
+  smap_serialize m = Some (raw_of m) /\ smap_deserialize (raw_of m) = DOk m.
+Proof. exact (smap_roundtrip m). Qed.
+
+(* --- the reporting loop keeps running and keeps trying to sync ------------------------------ *)
+(* after a round that returned, the next iteration of threadedSendReports is not blocked *)
+Theorem c11_loop_not_wedged (verify : bytes -> bytes -> bytes -> bool) mykey st att st' r tr ticks ok :
+  c_locked st = false -> sync_round verify v_fixed mykey st att = (st', r, tr) -> r = RTrue \/ r = RFalse ->
+  send_iter (c_locked st') ticks ok = Some (tick_step ticks ok).
+Proof. exact (loop_not_wedged verify mykey st att st' r tr ticks ok). Qed.
+
+(* from any tick count and whatever the earlier rounds reported, a sync is launched within 60 iterations *)
+Theorem c11_keeps_reporting ticks oks : 0 <= ticks -> List.length oks = 60%nat ->
+  snd (ticks_run ticks oks) = true.
+Proof. exact (ticks_run_60 ticks oks). Qed.
+
+(* non-vacuity: the invariant is inhabited by a loaded client *)
+Example c11_nonvacuous : exists st, client_load k7_files [k7_srv] = LdOk st /\ c_locked st = false.
+Proof. eexists. split; [vm_compute; reflexivity | reflexivity]. Qed.
